@@ -287,3 +287,44 @@ Proof.
   - cbn [spec_step]. rewrite Hi, Hj. rewrite Bool.eqb_reflx. reflexivity.
   - cbn [gives]. unfold src_state. rewrite Hj. reflexivity.
 Qed.
+
+(* ------------------------------------------------------------------ no bytewise path *)
+(* every transfer from an ENGAGED source runs the payload's own copy/move operation: the event log of
+   the step has a read (or move) of the source payload and a construction of / assignment to the
+   target payload - for every payload flavour; there is no other way a value enters a wrapper *)
+Lemma transfer_is_payload_copy z s a o i j tj v x s' e :
+  sim s a -> transfer_of o = Some (i, j) -> a j = Some (tj, Some v) ->
+  step (fixed_cfg z) s o = SOk x s' e ->
+  existsb (is_src_read j) e = true /\ existsb (is_dst_write i) e = true.
+Proof.
+  intros Hs Ht Hj Hst.
+  destruct o; cbn [transfer_of] in Ht; try discriminate; inversion Ht; subst; clear Ht;
+    (destruct (N.eqb_spec i j) as [E|Nij];
+     [ subst j; pose proof (Hs i) as Hi; rewrite Hj in Hi; cbn in Hi;
+       revert Hst; cbv beta iota delta [step ctor_from assign_from]; rewrite Hi;
+       destruct tj; cbv beta iota zeta delta -[upd N.eqb]; rewrite ?N.eqb_refl;
+       cbv beta iota zeta delta -[upd N.eqb]; intro Hst; try discriminate; inversion Hst; subst;
+       cbn; rewrite ?N.eqb_refl; cbn; rewrite ?orb_true_r; split; reflexivity
+     | pose proof (Hs i) as Hi; pose proof (Hs j) as Hj'; rewrite Hj in Hj'; cbn in Hj';
+       apply N.eqb_neq in Nij;
+       revert Hst; cbv beta iota delta [step ctor_from assign_from]; rewrite Hi, Hj';
+       destruct (a i) as [[[|] [?|]]|]; destruct tj; cbv beta iota zeta delta -[upd N.eqb]; rewrite ?Nij;
+       cbv beta iota zeta delta -[upd N.eqb]; intro Hst; try discriminate; inversion Hst; subst;
+       cbn; rewrite ?N.eqb_refl; cbn; rewrite ?orb_true_r; split; reflexivity ]).
+Qed.
+
+(* ... and these events are observable for every payload kind with user-provided copy operations *)
+Lemma transfer_visible pk e j i :
+  ((pk = PkFull) \/ (pk = PkNoDtor)) ->
+  existsb (is_src_read j) e = true /\ existsb (is_dst_write i) e = true ->
+  existsb (is_src_read j) (observed pk e) = true /\ existsb (is_dst_write i) (observed pk e) = true.
+Proof.
+  intros Hpk [H1 H2]. unfold observed.
+  assert (V : forall x, (is_src_read j x = true \/ is_dst_write i x = true) -> visible pk (fst x) = true).
+  { intros [k w] [H|H]; destruct Hpk; subst pk; destruct k; cbn in *; try reflexivity; discriminate. }
+  split; apply existsb_exists.
+  - apply existsb_exists in H1. destruct H1 as (x & Hin & Hx). exists x. split; [|exact Hx].
+    apply filter_In. split; [exact Hin | apply V; left; exact Hx].
+  - apply existsb_exists in H2. destruct H2 as (x & Hin & Hx). exists x. split; [|exact Hx].
+    apply filter_In. split; [exact Hin | apply V; right; exact Hx].
+Qed.
